@@ -34,7 +34,7 @@ BASE = dict(
     treacherous=0.5, shapes=0.05, str_dtype=0.3, measures=SET_JOINS,
     threads=0.2, process=0.5, extras=0.5, outs=0.5, big=0.1,
     wrong_mode_filters=0.0, siblings=0.08, retune=0.0, qgram_pref=0.2,
-    fault_hist=0.12, edit=0.0)
+    fault_hist=0.12, edit=0.0, hashproc=0.0)
 
 
 def profile(prop):
@@ -50,7 +50,7 @@ def profile(prop):
     elif prop == 'C04':
         p.update(ops={'filter_tables': 0.45, 'filter_candset': 0.25,
                       'filter_pair': 0.3}, tight=0.6, treacherous=0.7,
-                 hist=(1, 3), big=0.2, siblings=0.3, retune=0.1)
+                 hist=(1, 3), big=0.2, siblings=0.3, retune=0.1, hashproc=0.015)
     elif prop == 'C05':
         p.update(ops={'apply_matcher': 1.0}, hist=(1, 2), p_missing=0.12,
                  siblings=0.2)
@@ -681,6 +681,12 @@ def gen_plan(g):
         # loky keeps its worker processes between calls (their module state
         # persists); sometimes a worker is freshly started instead
         plan['reuse_workers'] = rng.random() < 0.7
+        if rng.random() < prof.get('hashproc', 0.0):
+            # real child interpreters whose string-hash seed differs from the
+            # coordinator's (what loky workers are unless PYTHONHASHSEED is
+            # pinned for the whole process tree)
+            plan['mode'] = 'hashproc'
+            plan['hash_seed'] = rng.randint(1, 10 ** 6)
     if mode == 'threads':
         plan['preempt_seed'] = rng.randint(0, 10 ** 6)
         plan['switch_p'] = rng.choice([0.05, 0.3, 0.3, 1.0])
